@@ -444,3 +444,36 @@ def resolved_returns(func: FuncInfo, depth: int = 2) -> list[ast.AST]:
 		for e in resolved_returns(g, depth - 1):
 			out.append(S().visit(copy.deepcopy(e)))
 	return out
+
+
+def inline_predicates(func: FuncInfo, known: list[tuple[ast.AST, bool]], depth: int = 2) -> list[tuple[ast.AST, bool]]:
+	"""a condition that is a call of a same-class helper (or nested function) whose body is a single `return <expr>` stands for that expression with
+	the helper's parameters replaced by the call arguments (`cls._enclosed(text, '/')` -> `len(text) >= 2 and text.startswith('/') and text.endswith('/')`)"""
+	import copy
+	out: list[tuple[ast.AST, bool]] = []
+	for a, pol in known:
+		g = None
+		if depth > 0 and isinstance(a, ast.Call):
+			if isinstance(a.func, ast.Attribute) and isinstance(a.func.value, ast.Name) and a.func.value.id in ('self', 'cls') and func.cls is not None:
+				g = func.cls.method(a.func.attr)
+			elif isinstance(a.func, ast.Name):
+				g = func.module.functions.get(f'{func.qualname}.<locals>.{a.func.id}') or func.module.functions.get(a.func.id)
+		rets = [n for n in walk_no_nested(g.node) if isinstance(n, ast.Return)] if g is not None else []
+		body = [s for s in g.node.body if not (isinstance(s, ast.Expr) and isinstance(s.value, ast.Constant))] if g is not None else []
+		if g is None or len(rets) != 1 or len(body) != 1 or rets[0].value is None:
+			out.append((a, pol))
+			continue
+		params = [x.arg for x in g.node.args.posonlyargs + g.node.args.args]
+		if params and params[0] in ('self', 'cls') and isinstance(a.func, ast.Attribute):
+			params = params[1:]
+		binding = {p_: v for p_, v in zip(params, a.args) if not isinstance(v, ast.Starred)}
+		binding.update({kw.arg: kw.value for kw in a.keywords if kw.arg})
+
+		class S(ast.NodeTransformer):
+			def visit_Name(self, node: ast.Name):
+				if isinstance(node.ctx, ast.Load) and node.id in binding:
+					return copy.deepcopy(binding[node.id])
+				return node
+		expr = S().visit(copy.deepcopy(rets[0].value))
+		out.extend(inline_predicates(g, conjuncts(expr, pol), depth - 1))
+	return out
